@@ -245,7 +245,7 @@ func runC02(rep *vh.Report, r *vh.Rng, n int, thorough bool) {
 			rotate(r, ksA)
 		}
 		if r.Bool() {
-			rotate(r, ksB)
+			c02Rotate(r, ksB)
 		}
 		// control: B is given A's key at a random position of its history => the value MUST be revealed
 		// (shows the oracle is live and that the reduction's "shared key" disjunct is real)
@@ -353,5 +353,21 @@ func runC02(rep *vh.Report, r *vh.Rng, n int, thorough bool) {
 				}
 			}
 		}
+	}
+}
+
+// c02Rotate: rotate() for a key set that may lack symmetric keys entirely (ksB): rotate's "newer key with the same
+// 2-byte key id as the key in use" case indexes Syms[0] and crashed the harness for such a key set (seed 2).
+// Same draws as rotate; the colliding-key case adds nothing when there is no key in use.
+func c02Rotate(r *vh.Rng, ks *vh.KeySet) {
+	if len(ks.Syms) > 0 {
+		rotate(r, ks)
+		return
+	}
+	if r.Bool() {
+		ks.Seeds = append([][]byte{r.Bytes(32)}, ks.Seeds...)
+	}
+	if r.Intn(4) < 2 {
+		ks.Syms = append([][]byte{r.Bytes(32)}, ks.Syms...)
 	}
 }
